@@ -168,6 +168,9 @@ func (x *Exec) fail(path []interface{}, f model.Fault) {
 	if f.Kind == "group" || f.Kind == "wgroup" {
 		n = f.N
 	}
+	if f.Kind == "ngroup" {
+		n = f.N + 2
+	}
 	for i := 0; i < n; i++ {
 		x.err(path, "resolver")
 	}
